@@ -247,13 +247,50 @@ func DecodeStream(r Getter, path *CycleCheck, x *Stream) (io.ReadCloser, error) 
 		}
 	}
 
+	// Most filter readers do not close the reader they decode from, so the
+	// stages are remembered here and closed one by one: a stage which owns a
+	// goroutine (DCTDecode) must be released also when it is not the
+	// outermost one, and when a later stage cannot be built.
+	var stages []io.Closer
+	closeStages := func() error {
+		// the result is that of the outermost stage, as before
+		var outer error
+		for i := len(stages) - 1; i >= 0; i-- {
+			err := stages[i].Close()
+			if i == len(stages)-1 {
+				outer = err
+			}
+		}
+		return outer
+	}
 	for _, fi := range filters {
-		out, err = fi.Decode(v, out, budget)
+		next, err := fi.Decode(v, out, budget)
 		if err != nil {
+			closeStages()
 			return nil, src.promote(err)
 		}
+		stage := &closeOnce{ReadCloser: next}
+		stages = append(stages, stage)
+		out = stage
 	}
-	return &sourceAwareReader{inner: out, src: src}, nil
+	return &sourceAwareReader{inner: out, src: src, closeAll: closeStages}, nil
+}
+
+// closeOnce makes Close idempotent, so that a stage whose reader is closed by
+// the stage above it (the predictor closes its compressor) is not closed
+// twice.
+type closeOnce struct {
+	io.ReadCloser
+	closed bool
+	err    error
+}
+
+func (c *closeOnce) Close() error {
+	if !c.closed {
+		c.closed = true
+		c.err = c.ReadCloser.Close()
+	}
+	return c.err
 }
 
 // sourceErrChecker wraps the raw byte source underlying a decoded PDF
@@ -299,6 +336,9 @@ func (s *sourceErrChecker) promote(err error) error {
 type sourceAwareReader struct {
 	inner io.ReadCloser
 	src   *sourceErrChecker
+
+	// closeAll closes every stage of the filter chain (outermost first).
+	closeAll func() error
 }
 
 func (s *sourceAwareReader) Read(p []byte) (int, error) {
@@ -309,7 +349,12 @@ func (s *sourceAwareReader) Read(p []byte) (int, error) {
 	return n, err
 }
 
-func (s *sourceAwareReader) Close() error { return s.inner.Close() }
+func (s *sourceAwareReader) Close() error {
+	if s.closeAll != nil {
+		return s.closeAll()
+	}
+	return s.inner.Close()
+}
 
 // GetFilters extracts the information contained in the /Filter and
 // /DecodeParms entries of a stream dictionary.
